@@ -213,10 +213,13 @@ pub struct SubCase {
 }
 
 pub fn sub_strategy() -> impl Strategy<Value = SubCase> {
-    (text(5), text(5), 0u8..5, rec()).prop_map(|(prefix, suffix, which, rec)| SubCase { prefix, suffix, which, rec })
+    (text(5), text(5), 0u8..8, rec()).prop_map(|(prefix, suffix, which, rec)| SubCase { prefix, suffix, which, rec })
 }
 
-const SUB_FORMS: [(&str, &str, bool); 5] = [
+const SUB_FORMS: [(&str, &str, bool); 8] = [
+    ("{d(%Y-%m-%d %H:%M:%S.%3f)(utc)}", "%Y-%m-%d %H:%M:%S%.3f", true),
+    ("{d(%Y-%m-%d %H:%M:%S.%6f)}", "%Y-%m-%d %H:%M:%S%.6f", false),
+    ("{date(%Y-%m-%dT%H:%M:%S.%9f)(utc)}", "%Y-%m-%dT%H:%M:%S%.9f", true),
     // (formatter text, chrono parse format ("" = RFC 3339), utc?)
     ("{d}", "", false),
     ("{d(%+)(utc)}", "", true),
@@ -242,6 +245,11 @@ pub fn check_sub(case: &SubCase, obs: &mut Obs) -> CaseResult {
         Ok(e) => e,
         Err(p) => return fail("C09:panic:construct", format!("PatternEncoder::new({:?}) panicked: {}", s, p)),
     };
+    // two records a few milliseconds apart on the same thread: each stamp must lie in its own bracket
+    for round in 0..2 {
+    if round == 1 {
+        std::thread::sleep(std::time::Duration::from_millis(3));
+    }
     let t0 = Utc::now();
     let (w, res) = match catch(|| encode_with(&enc, &case.rec, vec![])) {
         Ok(x) => x,
@@ -285,8 +293,9 @@ pub fn check_sub(case: &SubCase, obs: &mut Obs) -> CaseResult {
     ensure!(
         instant >= t0 - slack && instant <= t1,
         "C09:date-instant",
-        "pattern {:?}: rendered instant {} outside the encode bracket [{}, {}]", s, instant, t0, t1
+        "pattern {:?} (record #{} on this thread): rendered instant {} outside the encode bracket [{}, {}]", s, round, instant, t0, t1
     );
+    }
     obs.nontrivial = !case.prefix.is_empty() || !case.suffix.is_empty();
     obs.class(format!("form={}", form));
     Ok(())
